@@ -102,8 +102,8 @@ def check_protocol(ctx, model, clauses):
                 if not writing:
                     continue
                 path = c.args[0] if c.args else kwarg(c, 'file')
-                st = 'open(%s, %r)' % (short(path), mode)
-                if once('R10-atomic-publish', st):
+                st = 'open(%s, %r)' % ('<the cache module path>' if (path is not None and canon(path) in load_paths) else short(path) if path is not None and 'os.path.join' not in canon(path) else '<temporary path>', mode)
+                if once('R10-atomic-publish', st, ev['eff'].node):
                     nwrite += 1
                     if path is not None and canon(path) in load_paths:
                         ctx.violation('R10-atomic-publish', fi, st,
@@ -111,8 +111,12 @@ def check_protocol(ctx, model, clauses):
                     else:
                         # must be followed by a replace onto the load path
                         later = [x for x in evs[i:] if x['ev'] == 'replace' and canon(x['src']) == canon(path) and canon(x['dst']) in load_paths]
-                        if later:
-                            ctx.holds('R10-atomic-publish', fi, st + ' ... ' + later[0]['eff'].text()[:40], 'written to a distinct temporary path and published with an atomic replace', line, clause='A')
+                        uniq = path is not None and any(call_name(x) in ('os.getpid', 'getpid', 'uuid.uuid4', 'uuid4', 'threading.get_ident', 'get_ident', 'tempfile.mktemp', 'time.time_ns') or
+                                                        (model.sym(x) and model.kind(x) == 'tmp') for x in ast.walk(path))
+                        if later and not uniq:
+                            ctx.violation('R10-atomic-publish', fi, st + ' [temporary name: %s]' % tmp_name_parts(path), 'the temporary path is not unique per process (no pid / mkstemp): two processes defining the class at the same time write the same temporary file and the second os.replace fails with FileNotFoundError or publishes a mix', line, clause='A')
+                        elif later:
+                            ctx.holds('R10-atomic-publish', fi, st + ' ... ' + later[0]['eff'].text()[:40], 'written to a distinct, per-process temporary path and published with an atomic replace', line, clause='A')
                         else:
                             ctx.undecided('R10-atomic-publish', fi, st, 'a file is opened for writing that is neither the load path nor replaced onto it', line, clause='A')
             if ev['ev'] == 'tmp' and 'A' in clauses:
@@ -182,6 +186,13 @@ def short(e):
         return '?'
     t = canon(e)
     return t if len(t) < 60 else '<cache module path>' if 'os.path.join' in t else t[:57] + '...'
+
+
+def tmp_name_parts(path):
+    if isinstance(path, ast.BinOp) and isinstance(path.op, ast.Mod):
+        args = path.right.elts if isinstance(path.right, ast.Tuple) else [path.right]
+        return '%s %% (%s)' % (canon(path.left), ', '.join('<module path>' if 'os.path.join' in canon(a) else canon(a)[:40] for a in args))
+    return canon(path)[:80]
 
 
 def provenance(model, p, evs, m, guards):
